@@ -129,10 +129,10 @@ func sxInt(n *sx) (int64, bool) {
 const dsigPath = "github.com/russellhaering/goxmldsig"
 
 type qnode struct {
-	ikind string   // interface inputs that the replayer can realise: keystore, certstore, signer, canon
-	aux   []*qnode // keystore: kpCert bytes
-	auxT  []*Term  // keystore: kpKey == nil, kpErr == nil
-	kind   string // ptr, struct, string, int, bool, slice, iface, clock, skip
+	ikind  string   // interface inputs that the replayer can realise: keystore, certstore, signer, canon
+	aux    []*qnode // keystore: kpCert bytes
+	auxT   []*Term  // keystore: kpKey == nil, kpErr == nil
+	kind   string   // ptr, struct, string, int, bool, slice, iface, clock, skip
 	t      types.Type
 	term   *Term
 	fields []*qnode // struct fields / slice elements
